@@ -420,22 +420,93 @@ func c10Classify(c *Ctx) {
 			}
 		}
 	}
-	// op == "parse" test
-	var parseTrue, parseFalse map[[2]int]bool
-	for _, iff := range ssau.Ifs(cl) {
-		op, x, y, ok := ssau.CondOf(iff.Cond)
-		if !ok || op != token.EQL {
-			continue
+	// the function that decides: the classifier itself, or a helper it switches
+	// on (kind := classify(op, cause); switch kind { case parseKind: ... })
+	af := cl
+	var causeP *ssa.Parameter = cl.Params[2]
+	findParseTest := func(fn *ssa.Function, op *ssa.Parameter) (t, f map[[2]int]bool) {
+		for _, iff := range ssau.Ifs(fn) {
+			o, x, y, ok := ssau.CondOf(iff.Cond)
+			if !ok || o != token.EQL {
+				continue
+			}
+			if s, isS := ssau.ConstString(y); isS && s == "parse" && x == ssa.Value(op) {
+				t = map[[2]int]bool{{iff.Block().Index, 0}: true}
+				f = map[[2]int]bool{{iff.Block().Index, 1}: true}
+			}
 		}
-		if s, isS := ssau.ConstString(y); isS && s == "parse" && x == ssa.Value(opP) {
-			parseTrue = map[[2]int]bool{{iff.Block().Index, 0}: true}
-			parseFalse = map[[2]int]bool{{iff.Block().Index, 1}: true}
-		}
+		return
+	}
+	parseTrue, parseFalse := findParseTest(cl, opP)
+	if parseTrue == nil && len(parseRet) > 0 && len(nfRet) > 0 {
+		ssau.ForEachInstr(cl, false, func(in ssa.Instruction) {
+			call, ok := in.(*ssa.Call)
+			if !ok || af != cl {
+				return
+			}
+			kf := call.Common().StaticCallee()
+			if kf == nil || kf.Blocks == nil || !c.P.IsRepoFunc(kf) {
+				return
+			}
+			var kop, kcause *ssa.Parameter
+			for i, a := range call.Common().Args {
+				if i >= len(kf.Params) {
+					break
+				}
+				if a == ssa.Value(cl.Params[0]) {
+					kop = kf.Params[i]
+				}
+				if a == ssa.Value(cl.Params[2]) {
+					kcause = kf.Params[i]
+				}
+			}
+			if kop == nil || kcause == nil {
+				return
+			}
+			// which constant of the helper selects which verdict here
+			verdictOf := map[int64]string{}
+			for _, iff := range ssau.Ifs(cl) {
+				o, x, y, ok := ssau.CondOf(iff.Cond)
+				if !ok || o != token.EQL || x != ssa.Value(call) {
+					continue
+				}
+				kv, isC := ssau.ConstInt(y)
+				if !isC {
+					continue
+				}
+				t := iff.Block().Succs[0]
+				for _, pr := range parseRet {
+					if t == pr.Block() {
+						verdictOf[kv] = "parse"
+					}
+				}
+				for _, nr := range nfRet {
+					if t == nr.Block() {
+						verdictOf[kv] = "notfound"
+					}
+				}
+			}
+			var pr2, nr2 []*ssa.Return
+			for _, ret := range ssau.ReturnsOf(kf) {
+				if kv, isC := ssau.ConstInt(ret.Results[0]); isC {
+					switch verdictOf[kv] {
+					case "parse":
+						pr2 = append(pr2, ret)
+					case "notfound":
+						nr2 = append(nr2, ret)
+					}
+				}
+			}
+			if t, f := findParseTest(kf, kop); t != nil && len(pr2) > 0 && len(nr2) > 0 {
+				af, opP, causeP, parseRet, nfRet, parseTrue, parseFalse = kf, kop, kcause, pr2, nr2, t, f
+			}
+		})
 	}
 	if parseTrue == nil || len(parseRet) == 0 || len(nfRet) == 0 {
 		r.Bad("O-4", ck+"#shape", c.P.Pos(cl.Pos()), "the classifier has no `op == \"parse\"` test, no parse verdict or no not-found verdict")
 		return
 	}
+	cl = af
 	// (a) with op == "parse" only the parse verdict is reachable (cut the false edge: what stays reachable)
 	good := true
 	entry := cl.Blocks[0]
@@ -452,7 +523,7 @@ func c10Classify(c *Ctx) {
 		// reachable from the entry without taking the false edge of the test
 		// *after* having reached the test: approximate by requiring every path
 		// to a non-parse verdict (other than the nil-cause return) to pass the false edge
-		if reachAvoidBB(entry, ret.Block(), parseFalse, nil) && !c10NilCauseReturn(cl, ret) {
+		if reachAvoidBB(entry, ret.Block(), parseFalse, nil) && !c10NilCauseReturn(cl, causeP, ret) {
 			good = false
 		}
 	}
@@ -499,7 +570,7 @@ func c10Classify(c *Ctx) {
 				if b == chainIf.Block() || !(b == entry || reachAvoidBB(entry, b, nil, nil)) || !reachAvoidBB(b, chainIf.Block(), nil, nil) {
 					continue
 				}
-				if !c10HarmlessBeforeChain(cl, iff) {
+				if !c10HarmlessBeforeChain(opP, causeP, iff) {
 					good, why = false, "the test at "+c.P.Pos(iff.Cond.Pos())+" looks into the message text before the error chain is consulted"
 				}
 			}
@@ -513,14 +584,14 @@ func c10Classify(c *Ctx) {
 // path quoted in a read failure's message: a comparison of the operation
 // parameter with a constant, a nil test of the cause, or strings.HasPrefix of
 // the message with a constant.
-func c10HarmlessBeforeChain(fn *ssa.Function, iff *ssa.If) bool {
+func c10HarmlessBeforeChain(opP, causeP *ssa.Parameter, iff *ssa.If) bool {
 	if op, x, y, ok := ssau.CondOf(iff.Cond); ok && (op == token.EQL || op == token.NEQ) {
-		if x == ssa.Value(fn.Params[0]) || y == ssa.Value(fn.Params[0]) {
+		if x == ssa.Value(opP) || y == ssa.Value(opP) {
 			_, c1 := ssau.ConstString(x)
 			_, c2 := ssau.ConstString(y)
 			return c1 || c2
 		}
-		if (x == ssa.Value(fn.Params[2]) && ssau.IsNilConst(y)) || (y == ssa.Value(fn.Params[2]) && ssau.IsNilConst(x)) {
+		if (x == ssa.Value(causeP) && ssau.IsNilConst(y)) || (y == ssa.Value(causeP) && ssau.IsNilConst(x)) {
 			return true
 		}
 	}
@@ -532,8 +603,7 @@ func c10HarmlessBeforeChain(fn *ssa.Function, iff *ssa.If) bool {
 }
 
 // c10NilCauseReturn: the return taken when no cause is given at all.
-func c10NilCauseReturn(fn *ssa.Function, ret *ssa.Return) bool {
-	cause := fn.Params[2]
+func c10NilCauseReturn(fn *ssa.Function, cause *ssa.Parameter, ret *ssa.Return) bool {
 	succ, _ := nilTests(cause)
 	if len(succ) == 0 {
 		return false
